@@ -198,13 +198,24 @@ func verifyChain(certs []*x509.Certificate, trc *TRC, now time.Time) error {
 	if err != nil {
 		return serrors.Wrap("failed to extract root certs", err, "trc", trc.ID)
 	}
-	_, err = certs[0].Verify(x509.VerifyOptions{
+	chains, err := certs[0].Verify(x509.VerifyOptions{
 		Intermediates: intPool,
 		Roots:         rootPool,
 		KeyUsages:     certs[0].ExtKeyUsage,
 		CurrentTime:   now,
 	})
-	return err
+	if err != nil {
+		return err
+	}
+	// The verification path must lead through the CA certificate of the chain. An
+	// AS certificate that verifies against a root certificate directly is not
+	// issued by that CA certificate.
+	for _, chain := range chains {
+		if len(chain) == 3 && chain[1].Equal(certs[1]) {
+			return nil
+		}
+	}
+	return serrors.New("AS certificate not issued by the CA certificate of the chain")
 }
 
 // ValidateChain validates that a slice of SCION certificates can be
